@@ -328,7 +328,10 @@ func GenLogQuery(r *rand.Rand, d *DB, o GenOpts) *LogQuery {
 			if r.Intn(2) == 0 {
 				np = 2 + r.Intn(2)
 			}
-			for _, nm := range names[:np] {
+			for k, nm := range names[:np] {
+				if k > 0 && r.Intn(4) == 0 {
+					nm = names[0] // the same label named twice
+				}
 				p := Param{A: nm}
 				if r.Intn(2) == 0 {
 					p.HasB, p.B = true, pickVal(r, d, p.A)
